@@ -16,7 +16,7 @@ ID = 'C18'
 LEVEL = 'exploration'
 EXHAUSTIVE = {}
 RULE = ('profiles are synthesised by the harness from standard message structures (same nested reference shape, fully inlined) by one '
-        'constraint edit at a drawn site and depth - make an optional child required, cap an unbounded child at 1, forbid (remove) a child, '
+        'constraint edit at a drawn site and depth - make an optional child required, cap an unbounded child at 1 or at 2, forbid (remove) a child, '
         'swap a datatype (complex -> ST, base -> another base, complex -> another complex) on a segment / group, a field or a component - or '
         'by no edit (restating). A standard-conforming instance that passes through the edit site (modes incl. repeated groups) is built '
         'three ways: Message(name, reference=profile) + add_group/add_segment/value, parse_message(text, message_profile=profile), and '
@@ -87,6 +87,8 @@ def apply_edit(v, std, site, kind, newdt=None):
             return (name, ref, (1, mx), cls)
         if kind == 'max1':
             return (name, ref, (mn, 1), cls)
+        if kind == 'max2':
+            return (name, ref, (mn, 2), cls)
         if kind == 'forbid':
             return None
         if kind == 'datatype':
@@ -165,6 +167,8 @@ def applicable(site, kind):
         return mn == 0 and mx != 0
     if kind == 'max1':
         return mx == -1 or mx > 1
+    if kind == 'max2':
+        return mx == -1 or mx > 2
     if kind == 'forbid':
         return site['level'] != 'component'
     if kind == 'datatype':
@@ -262,14 +266,15 @@ def probe_created_children(v, msg, site, kind, newdt, level):
                     parent.children.remove(child)
                 except (ChildNotValid, HL7apyException):
                     pass
-            elif kind == 'max1' and level == STRICT:
+            elif kind in ('max1', 'max2') and level == STRICT:
+                cap = 1 if kind == 'max1' else 2
                 have = len([c for c in parent.children if c.name == name])
                 made = []
                 try:
-                    for _ in range(2 - min(have, 1)):
+                    for _ in range(cap + 1 - min(have, cap)):
                         made.append(getattr(parent, adder)(name))
-                    out.append(('C18-strict-exceeds-profile-cardinality:%s' % site['level'], '%s in %s: %d existing + %d added, profile max is 1' % (
-                        name, where, have, len(made))))
+                    out.append(('C18-strict-exceeds-profile-cardinality:%s' % site['level'], '%s in %s: %d existing + %d added, profile max is %d' % (
+                        name, where, have, len(made), cap)))
                 except (MaxChildLimitReached, HL7apyException):
                     pass
                 for c in made:
@@ -295,7 +300,7 @@ def check_edit(case, acc=None):
     out = []
     # 'refarg': the instance is built WITHOUT the profile (its elements carry the standard structure) and judged by
     # Validator.validate(message, reference=profile structure); cardinality edits only (the elements keep standard datatypes)
-    refarg = route == 'refarg' and kind in ('require', 'max1', 'forbid')
+    refarg = route == 'refarg' and kind in ('require', 'max1', 'max2', 'forbid')
     if route == 'refarg':
         route = 'api'
     if kind == 'restate':
@@ -313,7 +318,7 @@ def check_edit(case, acc=None):
         return out
     sites = [s for s in aggregate(find_sites(v, m, tree, lines)) if applicable(s, kind)]
     # prefer sites where the instance makes the edit bite
-    hot = [s for s in sites if (kind == 'require' and min(s['counts']) == 0) or (kind == 'max1' and s['count'] > 1)
+    hot = [s for s in sites if (kind == 'require' and min(s['counts']) == 0) or (kind == 'max1' and s['count'] > 1) or (kind == 'max2' and s['count'] > 1)
            or (kind == 'forbid' and s['count'] > 0) or (kind == 'datatype' and s['count'] > 0)]
     pool = hot if (hot and case['pick'] % 4) else sites
     if not pool:
@@ -324,7 +329,7 @@ def check_edit(case, acc=None):
     prof = {m: apply_edit(v, std, site, kind, newdt)}
     name = site['name']
     counts = site['counts']
-    violated = (kind == 'require' and min(counts) == 0) or (kind == 'max1' and max(counts) > 1) or (kind == 'forbid' and max(counts) > 0)
+    violated = (kind == 'require' and min(counts) == 0) or (kind == 'max1' and max(counts) > 1) or (kind == 'max2' and max(counts) > 2) or (kind == 'forbid' and max(counts) > 0)
     if kind == 'require' and site['level'] == 'component':
         violated = any(c < n for c, n in zip(counts, site['nrepss']))
     if kind == 'datatype':
@@ -366,7 +371,7 @@ def check_edit(case, acc=None):
         return [('C18-build-raises:%s:%s:%s' % (route, kind, type(e).__name__), '%s: %s' % (desc, _exc(e)))]
     if regrouped:
         return out
-    if level == STRICT and violated and kind in ('forbid', 'max1') and route != 'api' and not (
+    if level == STRICT and violated and kind in ('forbid', 'max1', 'max2') and route != 'api' and not (
             kind == 'forbid' and site['level'] == 'field' and _open_ended(v, site['seg'])):
         out.append(('C18-strict-accepted-profile-violation:%s:%s' % (route, kind), desc))
     try:
@@ -397,7 +402,9 @@ def check_special(case):
     v, m = case['v'], case['m']
     other = {'XXX_X01': copy_ref(T.message_ref(v, m))}
     text = 'MSH|^~\\&|A|B|C|D|20200101||%s|1|P|%s' % (S.msh9_text(v, m, R.DEFAULT_EC), v)
-    for what, fn in (('Message', lambda: Message(m, version=v, reference=other)), ('parse_message', lambda: P.parse_message(text, message_profile=other))):
+    for what, fn in (('Message', lambda: Message(m, version=v, reference=other)), ('parse_message', lambda: P.parse_message(text, message_profile=other)),
+                     ('Message:empty-profile', lambda: Message(m, version=v, reference={})),
+                     ('parse_message:empty-profile', lambda: P.parse_message(text, message_profile={}))):
         try:
             fn()
             out.append(('C18-missing-structure-accepted:%s' % what, '%s %s' % (v, m)))
@@ -443,7 +450,7 @@ def replay(case, acc):
     return check(case)
 
 
-KINDS = ('restate', 'require', 'max1', 'forbid', 'datatype', 'datatype', 'require', 'forbid')
+KINDS = ('restate', 'require', 'max1', 'max2', 'forbid', 'datatype', 'datatype', 'require', 'forbid', 'max2')
 
 
 @st.composite
